@@ -848,7 +848,11 @@ def effect_paths(prog, f, limit=256, inline=0, probes=None):
                 t = f.blocks[b]["t"]
                 if t["k"] == "call" and t["dest"]["l"] == 0 and not t["dest"].get("p"):
                     ci = f.dinfo(t["res"]) if t.get("res") is not None else (f.dinfo(t["raw"]) if "raw" in t else None)
-                    ret = mk_call(ci["name"] if ci else "indirect", [expr_tree(prog, f, a, inline=inline) for a in t["args"]])
+                    nm_ = ci["name"] if ci else "indirect"
+                    if nm_ in A.SAME_PATH_CALLS and t["args"] and nm_ != "from_residual":
+                        ret = expr_tree(prog, f, t["args"][0], inline=inline)      # ok_or / ok_or_else / into ... pass the value through
+                    else:
+                        ret = mk_call(nm_, [expr_tree(prog, f, a, inline=inline) for a in t["args"]])
             if probes:
                 for nm_, (pb, po) in probes.items():
                     if pb in blocks:
